@@ -149,8 +149,9 @@ func main() {
 		b := base
 		b.byzHonest, b.bound = false, 2
 		c := base
-		c.byzHonest, c.bound, c.maxH = false, 3, 1
-		scens = []scen{{"byz-silent-by-default/h<=2", b}, {"byz-honest-by-default/h<=2", a}, {"byz-silent-by-default/h<=1", c}}
+		c.byzHonest, c.bound, c.maxH, c.maxStates = false, 3, 1, 3000000
+		c.devW, c.devT = false, false // bound 3 over drops / releases and byzantine sends only (closes within the budget)
+		scens = []scen{{"byz-silent-by-default/h<=2", b}, {"byz-honest-by-default/h<=2", a}, {"byz-silent-by-default/h<=1/drop+byzantine-deviations", c}}
 	}
 	for _, sc := range scens {
 		if *flagBound >= 0 {
